@@ -281,6 +281,13 @@ impl Prop for C09 {
             // sinusoid with small noise that pattern is exactly periodic, the inner output settles to a constant
             // cycle, and the outer normaliser ends up dividing rounding noise by rounding noise.
             let tail_shape: u8 = if !any_ratio && r.chance(0.15) { 4 } else if any_ratio { *r.pick(&[12u8, 1, 12]) } else { *r.pick(&[12u8, 1, 9, 12]) };
+            // LaguerreRSI directly over the stream or over a plain low-pass: a slow strictly rising ramp through
+            // [0.59 S, 1.91 S] is an admissible tail as well. The four Laguerre stages then settle, geometrically, into
+            // the order l0 > l1 > l2 > l3 with gaps of at least one ramp step (about S/(1.5 T), against differences
+            // between the replicas of 1e-9 S and less from T on), CD is exactly zero in both replicas and both
+            // report exactly 1: a sustained trend must not let the state of before the merge show through.
+            let ramp_ok = tree.k == K::LaguerreRsi && !tree.kids[0].any(&|x| !matches!(x.k, K::Echo | K::Ema | K::EmaAlpha | K::Sma | K::Alma | K::LaguerreFilter));
+            let tail_shape = if ramp_ok && r.chance(0.3) { 2 } else { tail_shape };
             // "and stays there": 1.5% of the tails run on for thousands to a million deliveries after 2T
             let extra_tail = if r.chance(0.015) { crate::feed::long_len(r) } else { 0 };
             // mostly up to 500 S; in 15% of the runs a burst of 1e6..1e12 S (the horizon grows with the logarithm of it)
@@ -390,6 +397,9 @@ impl Prop for C09 {
                         out.invalid = Some("ratio-type views need a persistently exciting tail".into());
                         return out;
                     }
+                }
+                if spec.k == K::LaguerreRsi && tail.windows(2).all(|w| w[0] < w[1]) {
+                    out.stats.hit("reach.laguerre_rsi_on_a_rising_ramp");
                 }
                 let (tol, floor) = tol_floor(spec, s_scale);
                 match recovery(spec, &pa, &pb, &tail, floor, tol, stretch) {
@@ -531,7 +541,7 @@ impl Prop for C09 {
     }
 
     fn rule(&self) -> String {
-        "Views cycle systematically through Ema (default and sampled alpha), LaguerreFilter (gamma in {0,0.1..0.9,0.95}), SuperSmoother, RoofingFilter(N,M<=16), CyberCycle, TrendFlex, ReFlex, LaguerreRSI and EhlersFisherTransform over {Ema, Sma, Alma, SuperSmoother, LaguerreFilter}; 30% of runs are two-level chains of these, a quarter of which have a third level. N: 50% from the view's minimum to 9, 37% 10..64, 9% 128, 4% 1000. Mode 'recovery' (7 of 8 runs): two replicas of the same tree; one base stream of 0-400 values gets an independent fault realisation per replica (drop, duplicate, reorder, corrupt, spike bursts up to 500 S - in 15% of the runs 5e5..5e11 S, with the horizon stretched by one third per decade above 1e3 -, up to 300 extra prefix values; S from 1e-12 to 1e9), then both receive the same persistently exciting tail inside [S/2,2S] (uniform noise or random walk; for all-linear chains also sinusoid+noise and exactly constant tails). Oracle: with T = T(view,N) from the documented pole radius, |out_A-out_B| <= tol*scale at every delivery from T to the end of the tail (2T, and in 1.5% of runs thousands to a million deliveries more) (tol 1e-9 linear, 1e-6 ratio-type; scale = max(S or output range, largest |out| in the window)). Mode 'bounded' (1 of 8): one replica, 1.4e5 (3%: 1.1e6; thorough 3e5, 8% 1.1e6) deliveries of a feed bounded by S in any of the 14 shapes; every output finite and within 1e6*S (linear) or the analytic bound 5 / 1 / ln199 (ratio-type). distinct = distinct (topology, feed lengths); non-trivial = prefixes actually differ and the window was compared, or a bounded run reached 1e5 deliveries."
+        "Views cycle systematically through Ema (default and sampled alpha), LaguerreFilter (gamma in {0,0.1..0.9,0.95}), SuperSmoother, RoofingFilter(N,M<=16), CyberCycle, TrendFlex, ReFlex, LaguerreRSI and EhlersFisherTransform over {Ema, Sma, Alma, SuperSmoother, LaguerreFilter}; 30% of runs are two-level chains of these, a quarter of which have a third level. N: 50% from the view's minimum to 9, 37% 10..64, 9% 128, 4% 1000. Mode 'recovery' (7 of 8 runs): two replicas of the same tree; one base stream of 0-400 values gets an independent fault realisation per replica (drop, duplicate, reorder, corrupt, spike bursts up to 500 S - in 15% of the runs 5e5..5e11 S, with the horizon stretched by one third per decade above 1e3 -, up to 300 extra prefix values; S from 1e-12 to 1e9), then both receive the same persistently exciting tail inside [S/2,2S] (uniform noise or random walk; for all-linear chains also sinusoid+noise and exactly constant tails; for LaguerreRSI over the raw stream or a plain low-pass also a slow strictly rising ramp, on which both replicas must end up reporting exactly 1). Oracle: with T = T(view,N) from the documented pole radius, |out_A-out_B| <= tol*scale at every delivery from T to the end of the tail (2T, and in 1.5% of runs thousands to a million deliveries more) (tol 1e-9 linear, 1e-6 ratio-type; scale = max(S or output range, largest |out| in the window)). Mode 'bounded' (1 of 8): one replica, 1.4e5 (3%: 1.1e6; thorough 3e5, 8% 1.1e6) deliveries of a feed bounded by S in any of the 14 shapes; every output finite and within 1e6*S (linear) or the analytic bound 5 / 1 / ln199 (ratio-type). distinct = distinct (topology, feed lengths); non-trivial = prefixes actually differ and the window was compared, or a bounded run reached 1e5 deliveries."
             .into()
     }
     fn assumptions(&self) -> Vec<String> {
